@@ -170,11 +170,21 @@ def crc(ctx):
                 if idx and idx[0] == 'BitAnd' and ('c', 255) in idx[1:]:
                     inner = idx[1] if idx[2] == ('c', 255) else idx[2]
                 xor_ok = False
+                low_byte_operand = None
                 if inner and inner[0] == 'BitXor':
                     a, b_ = inner[1], inner[2]
                     if a != res:
                         a, b_ = b_, a
                     xor_ok = a == res and b_[0] == 'cast' and b_[1] == 'u64'
+                elif idx and idx[0] == 'BitXor':
+                    # the same index computed on the low byte: `(self.result as u8) ^ b` (truncation is `& 0xFF`, and xor
+                    # acts bytewise)
+                    a, b_ = idx[1], idx[2]
+                    if a != ('cast', 'u8', res):
+                        a, b_ = b_, a
+                    if a == ('cast', 'u8', res):
+                        xor_ok = True
+                        low_byte_operand = rv['r'] if rv['k'] == 'bin' else None
                 shape = shr and xor_ok
                 # the byte is the current element of an iterator over the data parameter, in order
                 for st in w.stmts(bb):
@@ -188,6 +198,15 @@ def crc(ctx):
                     # `u64::from(b)` is the same widening
                     if (pt.get('callee') or '').endswith(('convert::From::from', 'convert::Into::into')) and (pt.get('arg_tys') or [''])[0] == 'u8' and w.local_ty(pt['dest']['l']) == 'u64':
                         bo = origin(w, pt['args'][0])
+                if low_byte_operand is not None or (xor_ok and idx and idx[0] == 'BitXor'):
+                    # the byte is the other operand of that xor: find the u8 ^ u8 statement
+                    for pbb in sorted(w.live_blocks()):
+                        for st in w.stmts(pbb):
+                            if 'assign' in st and st['rv']['k'] == 'bin' and st['rv']['op'] == 'BitXor' and w.local_ty(st['assign']['l']) == 'u8':
+                                for side in ('l', 'r'):
+                                    o_ = origin(w, st['rv'][side])
+                                    if 'result' not in o_.fields:
+                                        bo = o_
                 byte_ok = False
                 if bo is not None and not bo.has_arith():
                     nx_ = [c_ for c_ in bo.calls if (c_.get('callee') or '').endswith('Iterator::next')]
